@@ -144,7 +144,18 @@ def gen_T(rng, big=True, n=None):
 OPS_AR = {'add': operator.add, 'sub': operator.sub,
           'radd': lambda t, v: operator.add(v, t), 'rsub': lambda t, v: operator.sub(v, t)}
 OPS_CMP = {'lt': operator.lt, 'le': operator.le, 'gt': operator.gt, 'ge': operator.ge, 'eq': operator.eq}
-KINDS = ['time', 'pyint', 'pyfloat', 'list', 'int32', 'int64', 'float64', 'mixedlist']
+KINDS = ['time', 'pyint', 'pyfloat', 'list', 'int32', 'int64', 'float64', 'mixedlist',
+         'npint32', 'npint64', 'npfloat64', 'arr0d']
+# numpy scalars and 0-d arrays are bare NUMBERS too (np.float64 is a python float): same protocol token as a
+# python scalar, so the model reads them in the time object's unit
+NP_SCALAR = {'npint32': np.int32, 'npint64': np.int64, 'npfloat64': np.float64, 'arr0d': (lambda v: np.array(v, dtype=np.int64))}
+
+
+def np_scalar_val(rng, kind, self_unit):
+    if kind == 'npfloat64':
+        return gen_float(rng, self_unit)
+    v = gen_int(rng, self_unit)
+    return max(-2**31, min(2**31 - 1, v)) if kind == 'npint32' else v
 
 
 def gen_operand(rng, kind, self_unit, n_self):
@@ -161,6 +172,9 @@ def gen_operand(rng, kind, self_unit, n_self):
     if kind == 'pyfloat':
         v = gen_float(rng, self_unit)
         return 'N:1:' + tok_num(v), (lambda: v), {'kind': kind, 'scalar': True, 'vals': [v]}
+    if kind in NP_SCALAR:
+        v = np_scalar_val(rng, kind, self_unit)
+        return 'N:1:' + tok_num(v), (lambda: NP_SCALAR[kind](v)), {'kind': kind, 'scalar': True, 'vals': [v]}
     n = rng.choice([1, n_self, n_self])
     if kind in ('list', 'int64'):
         vs = [gen_int(rng, self_unit) for _ in range(n)]
@@ -254,19 +268,19 @@ def cases(rng, tier, seed):
                     # bare numbers that denote (almost) the same instants as `self`: a comparison must
                     # then behave exactly like the constructor's rounding, also beyond 2^53 ps
                     f = FACTOR[ua]
-                    if kind in ('pyint', 'list', 'int32', 'int64'):
+                    if kind in ('pyint', 'list', 'int32', 'int64', 'npint32', 'npint64', 'arr0d'):
                         vs = [p_ // f + rng.choice([0, 0, 1, -1]) for p_ in ps]
-                        if kind == 'int32':
+                        if kind in ('int32', 'npint32'):
                             vs = [max(-2**31, min(2**31 - 1, v)) for v in vs]
                     else:
                         vs = [float(Fr(p_) / f) + rng.choice([0, 0.4, -0.4, 0.6, -0.6, 1, 0.5, 1e-3]) / f for p_ in ps]
                         if kind == 'mixedlist' and len(vs) > 1:
                             vs[0] = int(ps[0] // f)
-                    if kind in ('pyint', 'pyfloat'):
+                    if kind in ('pyint', 'pyfloat') or kind in NP_SCALAR:
                         vs = vs[:1]
                         meta.update(scalar=True, vals=vs)
                         tok = 'N:1:' + tok_num(vs[0])
-                        build = (lambda v=vs[0]: v)
+                        build = (lambda v=vs[0], k=kind: NP_SCALAR[k](v) if k in NP_SCALAR else v)
                     else:
                         meta.update(scalar=False, vals=vs)
                         tok = 'N:0:' + ','.join(tok_num(v) for v in vs)
@@ -421,7 +435,7 @@ def check_case(c):
         sb = m['scalar']
     else:
         vals = m['vals']
-        if m['kind'] in ('mixedlist', 'float64'):
+        if m['kind'] in ('mixedlist', 'float64', 'npfloat64'):
             vals = [float(v) for v in vals]
         bounds = [exp_ps_num(v, ua) for v in vals]
         b_lo, b_hi = [b[0] for b in bounds], [b[1] for b in bounds]
@@ -513,6 +527,8 @@ def rebuild_case(line, clause, m):
         v = m['vals']
         if k in ('pyint', 'pyfloat'):
             return v[0]
+        if k in NP_SCALAR:
+            return NP_SCALAR[k](v[0])
         if k in ('list', 'mixedlist'):
             return list(v)
         return np.array(v, dtype={'int32': np.int32, 'int64': np.int64, 'float64': np.float64}[k])
